@@ -143,6 +143,7 @@ static void gen_c12(Plan& p, Rng& r) {
         } else if (k < 62) {
             static const char* kinds[] = {"fd_write", "fd_write", "fd_pwrite", "fd_read", "fd_read", "fd_pread"};
             Op o = mkop(kinds[r.below(6)], r); o.n["fd_live"] = r.below(8); o.iov = gen_iov(r);
+            if (r.below(3) == 0) o.n["empty_at_end"] = 1;
             if (o.name == "fd_pwrite" || o.name == "fd_pread") {
                 // the offset is an unsigned 64-bit number: values from 2^63 up are negative as off_t and must be refused like POSIX does
                 static const int64_t offs[] = {0, 1, 5, 100, 4095, 8192, 70000, (1ll << 32), (1ll << 32) + 77, (1ll << 33) - 5, (1ll << 31),
@@ -287,7 +288,7 @@ static void gen_c15(Plan& p, Rng& r) {
         else if (k < 55) { Op o = mkop(r.below(4) == 0 ? "clock_res_get" : "clock_time_get", r); static const int64_t ids[] = {0, 1, 0, 1, 1, 2, 3, 4, 5, 0xFFFFFFFFll, 100}; o.n["id"] = ids[r.below(11)]; { static const int64_t pr[] = {0, 1, 1000, 1000000, 10000000, 1000000000ll}; o.n["precision"] = pr[r.below(6)]; }
             if (o.name == "clock_time_get" && o.n["id"] < 4 && r.below(10) == 0) { o.fault = "clock_fail"; o.fault_nth = 1; o.fault_param = r.below(2) ? EINVAL : EPERM; }
             p.ops.push_back(o); }
-        else if (k < 75) { Op o = mkop("random_get", r); static const int64_t ln[] = {0, 1, 7, 255, 256, 257, 1000, 4096, 65536, 1 << 20}; o.n["len"] = ln[r.below(r.below(3) == 0 ? 10 : 8)]; if (r.below(6) == 0) { o.fault = "getentropy_enosys"; o.fault_nth = 1; } p.ops.push_back(o); }
+        else if (k < 75) { Op o = mkop("random_get", r); static const int64_t ln[] = {0, 1, 7, 255, 256, 257, 1000, 4096, 65536, 1 << 20}; o.n["len"] = ln[r.below(r.below(3) == 0 ? 10 : 8)]; if (r.below(6) == 0) { o.fault = "getentropy_enosys"; o.fault_nth = 1; } else if (r.below(4) == 0) { o.fault = r.below(3) ? "getrandom_short" : "getrandom_eintr"; o.fault_nth = 1; } p.ops.push_back(o); }
         else if (k < 95) { Op o = mkop("spawn_round", r); o.n["tasks"] = 1 + r.below(4); o.n["per"] = 1 + r.below(3); o.n["argbase"] = argbase; argbase += 12; if (r.below(2)) o.n["mix"] = 1; p.ops.push_back(o); }
         else { Op o = mkop("proc_exit", r); static const int64_t cs[] = {0, 1, 2, 42, 255}; o.n["code"] = cs[r.below(5)]; p.ops.push_back(o); }
     }
